@@ -92,6 +92,7 @@ func genC05(g *Gen) *Plan {
 		cfg.Compresses = append(cfg.Compresses, CompressCfg{Name: "bestCompression", Levels: map[string]uint{"gzip": uint(pick(g, 1, 9)), "br": uint(pick(g, 1, 9, 11))}})
 	}
 	cfg.Upstreams[0].AcceptEncoding = pick(g, "", "", "gzip", "br", "lz4", "zst", "snz", "gzip, br")
+	cfg.Locations[0].ProxyTimeout = pick(g, "", "", "30s")
 	p.Configs = []Config{cfg}
 	p.Scripts = map[string][]Reply{}
 	p.Default = cacheable(3, 40)
@@ -121,9 +122,18 @@ func genC05(g *Gen) *Plan {
 			if g.p(0.2) {
 				r.ETag = fmt.Sprintf(`"v%d"`, g.n(1, 99))
 			}
+			if g.p(0.04) && r.Size > 1000 {
+				// the connection breaks in the middle of the body: the client must not get a
+				// complete-looking response, and nothing truncated may be stored
+				r.Fault = "abort"
+			}
 			s = append(s, r)
 		}
 		p.Scripts[key] = s
+		if method == "GET" && g.p(0.4) {
+			// the same URL is also requested with HEAD (a separate entry)
+			p.Scripts["HEAD "+hostA+" "+uri] = s
+		}
 	}
 	keys := sortedScriptKeys(p.Scripts)
 	n := g.n(10, 30)
